@@ -221,7 +221,17 @@ def make_case(rng, cls, ctx):
     n = {"Circle": 1, "Sphere": 1, "Ellipse": 2, "Ellipsoid": 3}[cls]
     axes, kind = gen_axes(rng, n)
     centre, ckind = gen_centre(rng, axes)
-    return {"cls": cls, "axes": axes, "center": centre, "info": {"axes_kind": kind, "centre_kind": ckind}}
+    case = {"cls": cls, "axes": axes, "center": centre, "info": {"axes_kind": kind, "centre_kind": ckind}}
+    if rng.random() < 0.3:
+        # the same shape REACHED THROUGH ITS SETTERS: built with other axes and another centre, every public
+        # property read once (anything cached is now cached for the wrong shape), then each semi-axis / the radius and
+        # the centre assigned.  The property speaks about the shape with its current axes, however it got them.
+        case["via"] = {"axes0": [float(x * np.exp(rng.uniform(-1.5, 1.5))) for x in axes],
+                       "center0": [float(x + rng.uniform(-2, 2) * max(axes)) for x in centre[:2]] + [float(centre[2]) if cls in ("Circle", "Ellipse") else float(centre[2] + rng.uniform(-2, 2) * max(axes))],
+                       "order": [int(i) for i in rng.permutation(n + 1)],
+                       "centre_attr": ["centroid", "center"][int(rng.integers(2))]}
+        ctx.count("constructed:via-setters")
+    return case
 
 
 # --------------------------------------------------------------------------- observation
@@ -251,8 +261,25 @@ class Recorder:
 
 def construct(case):
     import coxeter
+    import inspect
     cls = getattr(coxeter.shapes, case["cls"])
-    return cls(*case["axes"], center=case["center"])
+    via = case.get("via")
+    if not via:
+        return cls(*case["axes"], center=case["center"])
+    s = cls(*via["axes0"], center=via["center0"])
+    for name, member in inspect.getmembers(cls):      # warm every cache on the OLD geometry
+        if not name.startswith("_") and isinstance(member, property):
+            try:
+                getattr(s, name)
+            except Exception:  # noqa: BLE001
+                pass
+    names = {"Circle": ["radius"], "Sphere": ["radius"], "Ellipse": ["a", "b"], "Ellipsoid": ["a", "b", "c"]}[case["cls"]]
+    for k in via["order"]:
+        if k < len(names):
+            setattr(s, names[k], case["axes"][k])
+        else:
+            setattr(s, via["centre_attr"], np.array(case["center"], dtype=float))
+    return s
 
 
 def rel_gap(x, y):
